@@ -207,7 +207,7 @@ def unit_cases(ctx, p, max_leaves=400, max_cases=4, max_fuzz=10):
     what each result position means."""
     tr = ctoir.Translator([p.header, p.source])
     prog = tr.program()
-    walker = c09_driver.TreeWalker(p.spec, p.header)
+    walker = c09_driver.TreeWalker(p.spec, p.header, getattr(p, 'codec', 'uper'))
     meta = []
     lines = []
     for (m, n) in p.types:
